@@ -2,7 +2,9 @@ package bloomfilter
 
 import (
 	"encoding/binary"
+	"fmt"
 	"hash/fnv"
+	"io"
 	"math"
 	"os"
 	"sync"
@@ -143,7 +145,7 @@ func LoadBloomFilter(filePath string) (*BloomFilter, error) {
 
 	// Read header: size, hash functions, expected elements, insertions
 	header := make([]byte, 32)
-	if _, err := file.Read(header); err != nil {
+	if _, err := io.ReadFull(file, header); err != nil {
 		return nil, err
 	}
 
@@ -152,9 +154,21 @@ func LoadBloomFilter(filePath string) (*BloomFilter, error) {
 	expectedN := binary.LittleEndian.Uint64(header[16:24])
 	insertions := binary.LittleEndian.Uint64(header[24:32])
 
+	// The header must describe exactly the bit array that follows it. A
+	// damaged size field must not be trusted: it decides how much is allocated
+	// below and the modulus of every later lookup.
+	info, err := file.Stat()
+	if err != nil {
+		return nil, err
+	}
+	if size == 0 || hashFuncs == 0 || (size+7)/8 != uint64(info.Size()-32) {
+		return nil, fmt.Errorf("invalid bloom filter header: %d bits, %d hash functions, %d bytes of bit array",
+			size, hashFuncs, info.Size()-32)
+	}
+
 	// Read bit array
 	bits := make([]byte, (size+7)/8)
-	if _, err := file.Read(bits); err != nil {
+	if _, err := io.ReadFull(file, bits); err != nil {
 		return nil, err
 	}
 
